@@ -237,7 +237,7 @@ def owner_reader_program(rng, counters):
     tnames = rng.sample(["s", "p", "q", "w", "sum_%d" % rng.randrange(50), "out", "t%d" % rng.randrange(9)], 4)
     m = xdeps.Manager()
     fbox = C.FnBox("f")
-    d = {"d": {k: float(i + 1) for i, k in enumerate(keys)}, "lst": [1.0, 2.0, 3.0], "i": 1}
+    d = {"d": {k: float(i + 1) for i, k in enumerate(keys)}, "lst": [1.0, 2.0, 3.0], "i": 1, "src": 2.0, "src2": -1.0}
     for t in tnames:
         d[t] = 0.0
     r = m.ref(d, "r")
@@ -245,17 +245,26 @@ def owner_reader_program(rng, counters):
     s_, p_, q_, w_ = tnames
     defs = [(s_, lambda: f.tot(r["d"])), (p_, lambda: r["d"][keys[0]] * 10 + r[s_]), (q_, lambda: r[p_] + r[s_] - r["lst"][r["i"]]),
             (w_, lambda: f.tot(r["lst"]) + r["lst"][0] * r[q_])]
+    # members of the nested containers that are themselves written by tasks (nested targets), defined before or after
+    # the tasks that read their container as a whole
+    nested = [(("d", keys[1]), lambda: r["src"] * 10), (("lst", 2), lambda: r["src2"] - r["src"])]
+    defs = [(n_, mk) for n_, mk in defs] + [(path, mk) for path, mk in nested if rng.random() < 0.8]
     rng.shuffle(defs)
     tr = []
     for name, mk in defs:
-        r[name] = mk()
+        if isinstance(name, tuple):
+            r[name[0]][name[1]] = mk()
+        else:
+            r[name] = mk()
     for step in range(rng.randrange(3, 8)):
         which = rng.random()
         v = rng.choice([5.0, -1.0, 2.5, 0.5, 7.0])
-        if which < 0.5:
-            r["d"][rng.choice(keys)] = v
-        elif which < 0.8:
-            r["lst"][rng.randrange(3)] = v
+        if which < 0.3:
+            r["d"][rng.choice([keys[0], keys[2]])] = v
+        elif which < 0.5:
+            r["lst"][rng.randrange(2)] = v
+        elif which < 0.85:
+            r[rng.choice(["src", "src2"])] = v
         else:
             r["i"] = rng.randrange(3)
         tr.append(sorted((k, canon(x)) for k, x in d.items() if not isinstance(x, (dict, list))))
